@@ -75,6 +75,24 @@ TRANSLATION TABLE (Python → Lean)
   x.m(args), x a record parameter in the registry state, m a translated mutator   match (m x args) with | (.error e, ..) => error e passed on
                                         | (.ok _, v1, ..) => let x := { x with f1 := v1, .. }; `self` as an argument → self.<self_as>;
                                         self._a = x → (some x.<ref_key>);  X is [not] None → X.isNone / X.isSome;  "C.p.setter": the `@p.setter` def
+  t[i][j] / t[i][j] = e / t[pos] = e, t : List (List τ) (a 2-D table; registry state attr for the writes)
+                                        (Py.get2 t i j) / let t := Py.set2 t i j e / Py.set2 t pos.1 pos.2 e   (indices assumed within
+                                        0..len-1: negative indices / IndexError are outside the subset)
+  s.add(k) / s.discard(k), s a state attr of list type (a set kept as the list of its members)
+                                        let s := Py.setInsert s k / Py.setDiscard s k
+  t[i][j].append(o) / t[i][j].remove(o) Py.set2 t i j (cell ++ [o]) / if cell.contains o then Py.set2 t i j (cell.erase o) else ValueError
+  an object parameter in registry `ident` (agent ↦ unique_id): stored / compared by identity as that Int field:
+    t[i][j] = agent; c is [not] agent; agent [not] in c      (some agent.unique_id); (c ==/!= some agent.unique_id); c.contains agent.unique_id
+  obj.attr = e / = None, attr an Option-typed state attr     let obj__attr := (some e) / none
+  X is None / X is not None in an expression, X an Option    X.isNone / X.isSome
+  if (x := obj.attr) is None: A (returns); rest              match obj__attr with | none => A | some x => rest   (in rest `obj.attr` reads as x
+                                        until it is assigned);  self.m(..) inside a function with `self.` state attrs is called on
+                                        { self with attr := current value, … };  registry `ret`: declared type of `return None` / `return []`
+  x = self.m(args), m translated before and raising (no state)     match (m self args) with | .error e => (.error e, state…) | .ok x => rest
+  self.m(obj, args) / super().m(obj, args) as a statement, m translated before with the SAME state attrs as the caller (registry may_raise
+                                        if it raises): let (state…) := m {self with current state} {obj with current attrs} args   (an
+                                        error is propagated with the tables m left); a callee with another self record gets it rebuilt from
+                                        the equally named fields; `super().m` inside `m` = the `m` translated before (resolution order)
 NOT in the subset: floats, strings (except in `raise`), dict values, sets, slices, list indexing, nested defs, lambda,
 try/with, while without fuel, *args/**kwargs, walrus, global state, division by 0.
 """
@@ -140,6 +158,9 @@ class Fn:
     list_remove_raises: bool = False   # (cells) `self._xs.remove(e)` on a state list raises ValueError when `e` is absent
     self_as: str | None = None     # (cells) field of self's record that stands for `self` where it is passed as an argument
     ref_key: dict = field(default_factory=dict)   # (cells) record name -> field naming the object where a reference to it is stored
+    ret: tuple | str | None = None  # declared result type of a function whose `return None` / `return []` has no inferable type
+    ident: dict = field(default_factory=dict)     # parameter -> field: an object stored / compared by identity is named by that field
+    may_raise: bool = False        # the function raises without a `raise` statement (unpacking None, list.remove of a missing item)
 
 
 EXTERN = {}     # record name -> Lean name of extern records (filled by generate_group)
@@ -361,6 +382,9 @@ class Translator:
         return None
 
     def e_Compare(self, e, env):
+        r = self.g_compare(e, env)
+        if r is not None:
+            return r
         operands = [e.left, *e.comparators]
         if len(e.ops) == 1 and isinstance(e.ops[0], (ast.Is, ast.IsNot)) and isinstance(e.comparators[0], ast.Constant) \
                 and e.comparators[0].value is None:                       # `X is [not] None`, X an Option (cells extension)
@@ -383,6 +407,8 @@ class Translator:
 
     def e_Attribute(self, e, env):
         d = _dotted(e)
+        if d and env.get("#narrow:" + d):             # `(x := obj.attr) is None: return` happened: obj.attr is `some x`
+            return self.v(env["#narrow:" + d]), env[d][1]
         if d in env:                                  # state attribute held in a local
             return self.v(d), env[d]
         if isinstance(e.value, ast.Name) and e.value.id == "self" and self.fn.state and e.attr in self.fn.props \
@@ -399,6 +425,9 @@ class Translator:
         self.bad(e, f"attribute `{e.attr}` of a value of type {ty} is not declared in the registry")
 
     def e_Subscript(self, e, env):
+        r = self.g_subscript(e, env)
+        if r is not None:
+            return r
         if _dotted(e.value) in self.fn.keyed:
             return self.expr(e.slice, env)
         t, ty = self.expr(e.value, env)
@@ -498,7 +527,7 @@ class Translator:
             gfn, rty = self.group[callee]
             if rty and rty[0] == "E":
                 self.bad(e, f"call of `{callee}`, which can raise, inside an expression")
-            pre = ["self"] if f.startswith("self.") else []
+            pre = [self.self_now(env, gfn)] if f.startswith("self.") and gfn.self_rec else []
             return "(" + " ".join([gfn.name, *pre, *[v[0] for v in vals]]) + ")", rty
         self.bad(e, f"call of `{f}` outside the subset / whitelist")
 
@@ -560,6 +589,255 @@ class Translator:
                 return True
         return False
 
+    # ------------------------------------------------------------------ grid state (2-D tables, sets, objects named by an id)
+    # `self._grid[x][y]` read / write on a value of type List (List t): Py.get2 / Py.set2 (indices assumed within 0..len-1:
+    # negative indices and IndexError are outside the subset, the equivalence theorems carry the in-bounds hypothesis);
+    # `tbl[pos] = b` on such a table with a pair key (numpy 2-D array indexed by a tuple): Py.set2 tbl pos.1 pos.2 b;
+    # `s.add(k)` / `s.discard(k)` on a state attribute of list type (a set kept as the list of its members):
+    # Py.setInsert / Py.setDiscard; an object parameter listed in the registry's `ident` is stored / compared as its id
+    # field (`cell = agent` stores `some agent.unique_id` in an Option cell, `cell is not agent`, `agent in cell`);
+    # `obj.attr = e` on an Option-typed state attribute stores `some e` / `none`; `X is None` in an expression: X.isNone;
+    # `if (x := obj.attr) is None: return …` binds x in the `some` branch and narrows `obj.attr` to x until reassigned.
+    def self_now(self, env, callee):
+        """the `self` a method translated before is called on: the state attributes IT reads carry their current values"""
+        reads = getattr(callee, "reads_", set())
+        upd = [(a[5:], self.v(a)) for a in self.fn.state if a.startswith("self.") and a in env and a[5:] in reads]
+        return "{ self with " + ", ".join(f"{f} := {t}" for f, t in upd) + " }" if upd else "self"
+
+    def g_ident(self, e):
+        if isinstance(e, ast.Name) and e.id in self.fn.ident:
+            return f"{self.v(e.id)}.{self.fn.ident[e.id]}"
+        return None
+
+    def g_cell(self, e, env):
+        """(table text, i, j, element type) of `tbl[i][j]` / `tbl[pair]` on a value of type List (List t), else None"""
+        if not isinstance(e, ast.Subscript):
+            return None
+        if isinstance(e.value, ast.Subscript):
+            if _dotted(e.value.value) is None or _dotted(e.value.value) in self.fn.keyed:
+                return None
+            t, ty = self.expr(e.value.value, env)
+            if ty and ty[0] == "L" and ty[1] and ty[1][0] == "L":
+                (i, ti), (j, tj) = self.expr(e.value.slice, env), self.expr(e.slice, env)
+                if ti == "Int" and tj == "Int":
+                    return t, i, j, ty[1][1]
+            return None
+        if _dotted(e.value) is None or _dotted(e.value) in self.fn.keyed:
+            return None
+        t, ty = self.expr(e.value, env)
+        if ty and ty[0] == "L" and ty[1] and ty[1][0] == "L":
+            key, tk = self.expr(e.slice, env)
+            if tk == ("T", "Int", "Int"):
+                return t, f"{key}.1", f"{key}.2", ty[1][1]
+        return None
+
+    def g_subscript(self, e, env):
+        c = self.g_cell(e, env)
+        if c is None:
+            return None
+        return f"(Py.get2 {c[0]} {c[1]} {c[2]})", c[3]
+
+    def g_stored(self, e, env, ty):
+        """text of the value `e` stored where a value of type `ty` is expected (objects by id, Option injection)"""
+        if isinstance(e, ast.Constant) and e.value is None and ty and ty[0] == "O":
+            return "none"
+        i = self.g_ident(e)
+        t, te = (i, "Int") if i else self.expr(e, env)
+        if ty and ty[0] == "O" and te == ty[1]:
+            return f"(some {t})"
+        if te == ty or not self.closed(te):
+            return t
+        self.bad(e, f"a value of type {te} stored where {ty} is expected")
+
+    def g_compare(self, e, env):
+        if len(e.ops) != 1:
+            return None
+        op, l, r = e.ops[0], e.left, e.comparators[0]
+        if isinstance(op, (ast.Is, ast.IsNot)) and isinstance(r, ast.Constant) and r.value is None:
+            t, ty = self.expr(l, env)
+            if ty and ty[0] == "O":
+                return f"{t}.{'isNone' if isinstance(op, ast.Is) else 'isSome'}", "Bool"
+            self.bad(e, f"`is None` on a value of type {ty}")
+        if isinstance(op, (ast.Is, ast.IsNot)) and self.g_ident(r):
+            t, ty = self.expr(l, env)
+            if ty == ("O", "Int"):
+                return f"({t} {'==' if isinstance(op, ast.Is) else '!='} some {self.g_ident(r)})", "Bool"
+            self.bad(e, f"identity test of a value of type {ty} against an object")
+        if isinstance(op, (ast.In, ast.NotIn)) and self.g_ident(l):
+            t, ty = self.expr(r, env)
+            if ty == ("L", "Int"):
+                return f"({'!' if isinstance(op, ast.NotIn) else ''}{t}.contains {self.g_ident(l)})", "Bool"
+            self.bad(e, f"membership of an object in a value of type {ty}")
+        return None
+
+    def g_assign(self, s, env, k):
+        tg = s.targets[0]
+        if isinstance(tg, ast.Name) and isinstance(s.value, ast.Call):
+            r = self.g_call_raising(tg, s.value, env, k)
+            if r is not None:
+                return r
+        if isinstance(tg, ast.Name):
+            for key in [x for x in env if x.startswith("#narrow:") and env[x] == tg.id]:
+                env.pop(key)
+            return None
+        if isinstance(tg, ast.Subscript):
+            root = tg.value.value if isinstance(tg.value, ast.Subscript) else tg.value
+            d = _dotted(root)
+            if d in self.fn.state and d in env:
+                c = self.g_cell(tg, env)
+                if c is not None:
+                    return self.let(self.v(d), f"Py.set2 {c[0]} {c[1]} {c[2]} {self.g_stored(s.value, env, c[3])}") + k(dict(env))
+            return None
+        if isinstance(tg, ast.Attribute) and _dotted(tg) in self.fn.state and _dotted(tg) in env and env[_dotted(tg)][0] == "O":
+            d = _dotted(tg)
+            env = {x: y for x, y in env.items() if x != "#narrow:" + d}
+            return self.let(self.v(d), self.g_stored(s.value, env, env[d]), env[d], annotate=True) + k(env)
+        return None
+
+    def g_callstmt(self, c, env, k):
+        r = self.g_call_mutator(c, env, k)
+        if r is not None:
+            return r
+        if not isinstance(c.func, ast.Attribute) or c.keywords or len(c.args) != 1:
+            return None
+        meth, obj = c.func.attr, c.func.value
+        d = _dotted(obj)
+        if d in self.fn.state and d in env and env[d][0] == "L" and meth in ("add", "discard"):
+            key, kty = self.expr(c.args[0], env)
+            if kty != env[d][1]:
+                self.bad(c, f"`{meth}` of a value of type {kty} on a set of {env[d][1]}")
+            return self.let(self.v(d), f"Py.{'setInsert' if meth == 'add' else 'setDiscard'} {self.v(d)} {key}") + k(env)
+        if isinstance(obj, ast.Subscript) and isinstance(obj.value, ast.Subscript) and meth in ("append", "remove"):
+            d = _dotted(obj.value.value)
+            cell = self.g_cell(obj, env) if d in self.fn.state and d in env else None
+            if cell is not None and cell[3] == ("L", "Int"):
+                x = self.g_stored(c.args[0], env, "Int")
+                cur = f"(Py.get2 {cell[0]} {cell[1]} {cell[2]})"
+                if meth == "append":
+                    return self.let(self.v(d), f"Py.set2 {cell[0]} {cell[1]} {cell[2]} ({cur} ++ [{x}])") + k(env)
+                if not self.can_raise:
+                    self.bad(c, "list.remove on a cell raises ValueError: the registry must say may_raise")
+                return [f"if ({cur}.contains {x}) then ("] + \
+                    _ind(self.let(self.v(d), f"Py.set2 {cell[0]} {cell[1]} {cell[2]} ({cur}.erase {x})") + k(env)) + \
+                    [") else (", "  " + self.wrap_ret(None, error="Value"), ")"]
+        return None
+
+    def g_self_for(self, env, gfn):
+        """`self` as the callee's record: the caller's own record (with the current state), or — another record type — rebuilt
+        from the fields of the same name"""
+        if gfn.self_rec == self.fn.self_rec:
+            return self.self_now(env, gfn)
+        mine, theirs = self.recs[self.fn.self_rec].fields, self.recs[gfn.self_rec].fields
+        if any(f not in mine or mine[f] != t for f, t in theirs.items()):
+            self.bad(None, f"call of `{gfn.qualname}` on a record without the fields of {gfn.self_rec}")
+        cur = {a[5:]: self.v(a) for a in self.fn.state if a.startswith("self.") and a in env}
+        return "({ " + ", ".join(f"{f} := {cur.get(f, 'self.' + f)}" for f in theirs) + f" }} : {gfn.self_rec})"
+
+    def g_callee(self, c):
+        """the group function a call `self.m(..)` / `super().m(..)` resolves to (the methods are registered in resolution order:
+        `super().m` inside `m` is the `m` translated before), else None"""
+        f = c.func
+        if not isinstance(f, ast.Attribute) or c.keywords:
+            return None
+        via_self = isinstance(f.value, ast.Name) and f.value.id == "self"
+        via_super = isinstance(f.value, ast.Call) and isinstance(f.value.func, ast.Name) and f.value.func.id == "super" \
+            and not f.value.args and f.attr == self.fn.qualname.split(".")[-1]
+        if (via_self or via_super) and f.attr in self.group and self.group[f.attr][0].self_rec:
+            return self.group[f.attr]
+        return None
+
+    def g_call_raising(self, tg, c, env, k):
+        """`x = self.m(args)` where m (translated before, no state) can raise: the error is propagated"""
+        cal = self.g_callee(c)
+        if cal is None or cal[0].state or not cal[1] or cal[1][0] != "E":
+            return None
+        gfn, rty = cal
+        if not self.can_raise:
+            self.bad(c, f"`{gfn.qualname}` can raise: the registry must say may_raise")
+        args = [self.expr(a, env)[0] for a in c.args]
+        call = " ".join([gfn.name, self.g_self_for(env, gfn), *args])
+        env = dict(env)
+        for key in [x for x in env if x.startswith("#narrow:") and env[x] == tg.id]:
+            env.pop(key)
+        env[tg.id] = rty[1]
+        return [f"match ({call}) with", f"| .error err_ => {self.wrap_err('err_')}", f"| .ok {self.v(tg.id)} => ("] + _ind(k(env)) + [")"]
+
+    def wrap_err(self, var):
+        vals = [f".error {var}"] + [self.v(o) for o in self.outs]
+        return vals[0] if len(vals) == 1 else "(" + ", ".join(vals) + ")"
+
+    def g_call_mutator(self, c, env, k):
+        """`self.m(obj, args)` / `super().m(obj, args)` as a statement, m a state-changing function translated before: it is handed
+        the current state and its result tables become the caller's (the caller must declare the same state attributes)"""
+        cal = self.g_callee(c)
+        if cal is None or not cal[0].state:
+            return None
+        gfn, rty = cal
+        if list(gfn.state) != list(self.fn.state) or gfn.effects or gfn.snapshot or self.fn.effects or self.fn.snapshot:
+            self.bad(c, f"`{gfn.qualname}` changes other state than the caller declares")
+        args = []
+        for a in c.args:
+            t, ty = self.expr(a, env)
+            if ty and ty[0] == "R" and isinstance(a, ast.Name):
+                cur = [(x.split(".", 1)[1], self.v(x)) for x in self.fn.state if x.startswith(a.id + ".") and x in env]
+                if cur:
+                    t = "{ " + t + " with " + ", ".join(f"{f} := {v}" for f, v in cur) + " }"
+            args.append(t)
+        call = " ".join([gfn.name, self.g_self_for(env, gfn), *args])
+        outs = [self.v(o) for o in self.fn.state]
+        env = {x: y for x, y in env.items() if not x.startswith("#narrow:")}
+        raising = bool(rty) and rty[0] == "T" and isinstance(rty[1], tuple) and rty[1][0] == "E"
+        if not raising:
+            return [f"let ({', '.join(outs)}) := {call}"] + k(env)
+        if not self.can_raise:
+            self.bad(c, f"`{gfn.qualname}` can raise: the registry must say may_raise")
+        return [f"let (res_, {', '.join(outs)}) := {call}", "match res_ with", f"| .error err_ => {self.wrap_err('err_')}",
+                "| .ok _ => ("] + _ind(k(env)) + [")"]
+
+    def g_walrus_ok(self, node):
+        """ids of the walrus expressions in the one supported shape: `if (x := obj.attr) is None: <returns>`"""
+        ok = set()
+        for n in ast.walk(node):
+            if isinstance(n, ast.If) and self.g_walrus(n) is not None:
+                ok.add(id(n.test.left))
+        return ok
+
+    @staticmethod
+    def g_walrus(s):
+        t = s.test
+        if isinstance(t, ast.Compare) and len(t.ops) == 1 and isinstance(t.ops[0], ast.Is) and isinstance(t.left, ast.NamedExpr) \
+                and isinstance(t.comparators[0], ast.Constant) and t.comparators[0].value is None \
+                and isinstance(t.left.target, ast.Name) and _dotted(t.left.value) is not None and not s.orelse:
+            return t.left.target.id, t.left.value
+        return None
+
+    def g_if(self, s, env, k):
+        w = self.g_walrus(s)
+        if w is None:
+            return None
+        x, src = w
+        t, ty = self.expr(src, env)
+        if not ty or ty[0] != "O" or not self.escapes(s.body):
+            self.bad(s, "walrus test outside the shape `if (x := obj.attr) is None: return`")
+        a = self.block(s.body, dict(env, **{x: ty}), k)           # x is None here
+        some_env = dict(env, **{x: ty[1]})
+        some_env["#narrow:" + _dotted(src)] = x
+        b = k(some_env)
+        return [f"match {t} with", "| none => ("] + _ind(a) + [")", f"| some {self.v(x)} => ("] + _ind(b) + [")"]
+
+    def g_retval(self, s, env):
+        ty = self.fn.ret
+        if s.value is None or (isinstance(s.value, ast.Constant) and s.value.value is None):
+            if ty[0] != "O":
+                self.bad(s, f"`return None` in a function declared to return {ty}")
+            return "none"
+        if isinstance(s.value, ast.List) and not s.value.elts and ty[0] == "L":
+            return "[]"
+        t, te = self.expr(s.value, env)
+        if te != ty:
+            self.bad(s, f"return of a value of type {te} in a function declared to return {ty}")
+        return t
+
     def wrap_ret(self, text, error=None):
         """the function's result: the value (`.ok v` / `.error e` if it can raise), then the effects / state"""
         if error is not None:
@@ -590,6 +868,8 @@ class Translator:
         if isinstance(s, ast.Pass) or (isinstance(s, ast.Expr) and isinstance(s.value, ast.Constant)):
             return k(env)
         if isinstance(s, ast.Return):
+            if self.fn.ret is not None:
+                return [self.wrap_ret(self.g_retval(s, env))]
             if s.value is None or (isinstance(s.value, ast.Constant) and s.value.value is None):
                 return [self.wrap_ret(None)]
             t, ty = self.expr(s.value, env)
@@ -663,6 +943,9 @@ class Translator:
     def s_Assign(self, s, env, k, ann=None):
         if len(s.targets) != 1:
             self.bad(s, "chained assignment")
+        r = self.g_assign(s, env, k)
+        if r is not None:
+            return r
         tg = s.targets[0]
         env = dict(env)
         if isinstance(tg, ast.Attribute) and _dotted(tg) and _dotted(tg) + "=" in self.fn.effects:
@@ -730,6 +1013,9 @@ class Translator:
     def s_CallStmt(self, c, env, k):
         f = _dotted(c.func)
         env = dict(env)
+        r = self.g_callstmt(c, env, k)
+        if r is not None:
+            return r
         if f in ("heappush", "heapq.heappush") and len(c.args) == 2 and not c.keywords and _dotted(c.args[0]) in env and self.fn.order:
             h = _dotted(c.args[0])
             return self.let(self.v(h), f"Mesa.Heap.heappush {self.fn.order} {self.v(h)} {self.expr(c.args[1], env)[0]}") + k(env)
@@ -802,6 +1088,9 @@ class Translator:
 
     def s_If(self, s, env, k):
         t = s.test
+        r = self.g_if(s, env, k)
+        if r is not None:
+            return r
         if isinstance(t, ast.Compare) and len(t.ops) == 1 and isinstance(t.ops[0], (ast.Is, ast.IsNot)) and \
                 isinstance(t.left, ast.Name) and isinstance(t.comparators[0], ast.Constant) and t.comparators[0].value is None:
             x, tx = t.left.id, env.get(t.left.id)
@@ -1019,6 +1308,9 @@ class Translator:
         if a.kwonlyargs or a.posonlyargs or ((a.vararg or a.kwarg) and not fn.snapshot):
             self.bad(node, "*args / **kwargs / keyword-only parameters")
         self.passthrough = (a.vararg.arg if a.vararg else None, a.kwarg.arg if a.kwarg else None)
+        fn.reads_ = {n.attr for n in ast.walk(node) if isinstance(n, ast.Attribute) and isinstance(n.value, ast.Name) and n.value.id == "self"}
+        for m in sorted(fn.reads_ & set(self.group)):       # attributes of self read by the methods it calls, transitively
+            fn.reads_ = fn.reads_ | getattr(self.group[m][0], "reads_", set())
         names = [x.arg for x in a.args]
         env, binders = {}, []
         if names and names[0] == "self":
@@ -1047,9 +1339,15 @@ class Translator:
             binders.append("(fuel : Nat)")
         self.returns_value = any(isinstance(n, ast.Return) and n.value is not None and not (
             isinstance(n.value, ast.Constant) and n.value.value is None) for n in ast.walk(node))
+        if fn.ret is not None:
+            self.returns_value = True
+        if fn.may_raise:
+            self.can_raise = True
         for n in ast.walk(node):
             if isinstance(n, (ast.FunctionDef, ast.AsyncFunctionDef, ast.Lambda, ast.ClassDef)) and n is not node:
                 self.bad(n, "nested def / lambda / class")
+            if isinstance(n, ast.NamedExpr) and id(n) in self.g_walrus_ok(node):
+                continue
             if isinstance(n, (ast.Yield, ast.YieldFrom, ast.Await, ast.Global, ast.Nonlocal, ast.Try, ast.With, ast.NamedExpr,
                               ast.Delete, ast.Import, ast.ImportFrom, ast.Assert)):
                 self.bad(n, f"{type(n).__name__} outside the subset")
@@ -1074,6 +1372,8 @@ class Translator:
         for tok, val in self.tokens.items():
             lines = [l.replace(tok, val or "") for l in lines]
         val = self.ret_ty if self.returns_value else "Unit"
+        if fn.ret is not None:
+            val = fn.ret
         rty = None
         if self.closed(val):
             if self.can_raise:
